@@ -163,6 +163,49 @@ Proof. exact run_linearizable. Qed.
 Print Assumptions C04_linearizable_at_one_primitive.
 
 (* ------------------------------------------------------------------------------------------
+   T7 time.  Histories may contain [OTick d] ("d seconds pass"; the harness lets a clock client issue
+   them, so the schedule puts them between any two primitives of the other clients).  All theorems
+   above therefore hold across any amount of time: e.g. C04_exclusion with ticks in tr2 says that a
+   held lock is still refused to everybody else after 10 years, C04_failed_is_sticky that a failed
+   marker does not wear off.  The reason, stated on its own: on EVERY backend and for any constants a
+   time step issues the primitive [PTick d] (the identity on the store: no lock of the file, redis and
+   dict backends carries an expiry), returns, and changes neither the stored value nor the observable
+   status of any lock.  (The keep-alive backend is modelled here on a frozen clock; how its locks age
+   is C19, Model/Keepalive.v.) *)
+Theorem C04_time_does_not_unlock : forall (P : params) (b : backend) (hists : list (list (lockop * name)))
+                                          (s1 : list cid) (c : cid) (e : event) (d : Z),
+  let k := cfg_after P b hists s1 in
+  let k' := fst (sched_step P b k c) in
+  snd (sched_step P b k c) = Some e -> e_op e = OTick d ->
+  e_prim e = PTick d /\ e_ret e = Some OU /\
+  (forall m, sh k' m = sh k m) /\
+  (forall m, status_after (trace_of P b hists s1 ++ [e]) m = status_after (trace_of P b hists s1) m).
+Proof. exact run_time_passes. Qed.
+Print Assumptions C04_time_does_not_unlock.
+
+(* non-vacuity: clients 0 and 1 race for lock 0, client 0 wins; the clock client 2 lets 10 years pass between the
+   two primitives of client 1's get() (file backends) / before it (redis, dict); client 1 is refused,
+   is_locked() is True; client 0 marks it failed; 10 more years; still failed.  Well-formed on every
+   repaired backend. *)
+Example C04_nonvacuous_time_passes :
+  let P := LockConsts.lock_params 1000000 in
+  let ten_years := 315360000%Z in
+  let hists := [[(OGet, 0); (OFail, 0)]; [(OGet, 0); (OIsLocked, 0); (OIsFailed, 0)]; [(OTick ten_years, 0); (OTick ten_years, 0)]] in
+  let rets b s := map (fun e => (e_c e, e_ret e)) (trace_of P b hists s) in
+  let s2 := [0; 1; 0; 2; 1; 1; 0; 2; 1; 1] in     (* two primitives per get() / is_failed() *)
+  let s1 := [0; 2; 1; 1; 0; 2; 1] in              (* one primitive per operation *)
+  (forall b, repaired b = true -> wf_run P b (init hists) s2 = true /\ wf_run P b (init hists) s1 = true) /\
+  rets BFile s2 = [(0, None); (1, None); (0, Some (OB true)); (2, Some OU); (1, Some (OB false)); (1, Some (OB true));
+                   (0, Some (OB true)); (2, Some OU); (1, None); (1, Some (OB true))] /\
+  rets BRedis s1 = [(0, Some (OB true)); (2, Some OU); (1, Some (OB false)); (1, Some (OB true)); (0, None); (2, Some OU); (1, Some (OB false))] /\
+  rets BDict s1 = [(0, Some (OB true)); (2, Some OU); (1, Some (OB false)); (1, Some (OB true)); (0, Some (OB true)); (2, Some OU);
+                   (1, Some (OB true))].
+Proof.
+  cbv zeta. split; [intros [] H; try discriminate H; vm_compute; split; reflexivity|].
+  vm_compute. repeat split; reflexivity.
+Qed.
+
+(* ------------------------------------------------------------------------------------------
    T3 on the keep-alive backend, with the holder's helper process as a concurrent actor.
    The programs above run with the helper stopped (a refresh of a held lock writes the mtime it
    already has on the frozen clock).  While a helper runs, the one operation it can interfere with
